@@ -14,7 +14,7 @@ def _with_replay(fn):
         bad = [r for r in res if r.status == REFUTED and r.replay is None]
         if bad:
             from bounded import c12
-            hit = c12.search()
+            hit = c12.search() or c12.hashseed_pages((0, 1, 2))
             for r in bad:
                 r.replay = hit
         return res
